@@ -223,9 +223,6 @@ def values_for(kind: str) -> List[Tuple[str, str]]:
     return [(c, v) for c, vs in VALUE_CLASSES.items() for v in vs]
 
 
-DYNAMIC_TEMPLATES: List[dict] = []
-
-
 def _lit(s: str) -> dict:
     return {"k": "lit", "s": cps(s), "n": ""}
 
